@@ -9,9 +9,9 @@ man = {
     "setup_cmd": "./setup",
     "hooks": {
         "guard": "libcnb_rs_verif",
-        "enable": "RUSTFLAGS='--cfg libcnb_rs_verif' (set by lib/common.py for every harness build; no hook commits exist: every observation point is reachable through public API, executables or stand-in programs on PATH)",
+        "enable": "RUSTFLAGS='--cfg libcnb_rs_verif' (set by lib/common.py for every harness build). One hook: libcnb::layer::verif_hooks, add-only public wrappers around crate-private layer helpers (delete_layer, remove_dir_recursively, read_layer, write_layer, replace_layer_*)",
         "baseline_off_cmd": "cd /repo && cargo test --workspace --no-fail-fast --offline",
-        "source_commits": [],
+        "source_commits": ["e28e03d", "c8b8917"],
         "add_only": True,
     },
     "engines": [{
